@@ -1,1 +1,331 @@
-(* stub: to be written by group Etrade *)
+(* Model of the matching core of etrade-plan-pdf-tx-extract
+   (src/peripheral/etrade_plan_pdf_tx_extract_impl.rs: find_sell_to_cover_trade_set,
+   amend_benefit_sales, txs_from_data; src/peripheral/broker/etrade.rs:
+   BenefitEntry::sell_to_cover_data; src/peripheral/broker/broker_tx.rs: Into<CsvTx>;
+   src/portfolio/model/tx.rs: Ord for CsvTx, Tx::try_from for Buy/Sell rows).
+
+   Inputs are the abstract records the regex text layer produces: benefit
+   entries and trade confirmations, in the order parse_pdfs appends them (files
+   sorted by path, records in document order).  The text layer itself (regexes
+   over the PDF text) is NOT modelled.
+
+   Money and share counts are [Qc]; every arithmetic operation of the Rust
+   code goes through the arithmetic record [A : arith] ([dec] = rust_decimal
+   rounding, the code as it runs; [exact] = field arithmetic).  Dates are day
+   numbers.  Securities, plan notes, sell notes are opaque tokens.
+
+   Cost: [all_combos] enumerates every non-empty sub-list of the candidate
+   trades (2^n - 1 of them, Proofs/EtradeProps.v all_combos_length): termination
+   is structural, the cost is exponential in the number of candidate trades of
+   one benefit, exactly as the itertools::combinations loops of the code.
+
+   Definitions only; proofs are in Proofs/EtradeProps.v. *)
+From Coq Require Import List NArith ZArith QArith Qcanon Bool.
+From ACB Require Import Base.Outcome Base.QcExtra Base.Fit Base.Arith.
+Import ListNotations.
+Local Open Scope Z_scope.
+
+Inductive act : Type := ABuy | ASell.
+Definition act_eqb (a b : act) : bool :=
+  match a, b with ABuy, ABuy => true | ASell, ASell => true | _, _ => false end.
+
+(* BrokerTx as produced by the two trade-confirmation parsers: currency is
+   always USD, memo always empty, exchange rate None, affiliate default. *)
+Record trade : Type := {
+  t_sec : N;
+  t_td : Z;            (* trade_date *)
+  t_sd : Z;            (* settlement_date *)
+  t_act : act;
+  t_price : Qc;        (* amount_per_share *)
+  t_shares : Qc;       (* num_shares *)
+  t_comm : Qc;         (* commission + fee *)
+  t_tag : N            (* identity of the confirmation: file name, row number, account *)
+}.
+
+(* BenefitEntry *)
+Record benefit : Type := {
+  b_sec : N;
+  b_date : Z;                  (* acquire_tx_date *)
+  b_settle : Z;                (* acquire_settle_date *)
+  b_price : Qc;                (* acquire_share_price: the FMV *)
+  b_shares : Qc;               (* acquire_shares *)
+  b_stc_td : option Z;         (* sell_to_cover_tx_date *)
+  b_stc_sd : option Z;         (* sell_to_cover_settle_date *)
+  b_stc_price : option Qc;
+  b_stc_shares : option Qc;
+  b_stc_fee : option Qc;
+  b_note : N;                  (* plan_note *)
+  b_sell_note : option N       (* sell_note *)
+}.
+
+Definition set_stc_dates (b : benefit) (td sd : Z) : benefit :=
+  {| b_sec := b_sec b; b_date := b_date b; b_settle := b_settle b; b_price := b_price b;
+     b_shares := b_shares b; b_stc_td := Some td; b_stc_sd := Some sd;
+     b_stc_price := b_stc_price b; b_stc_shares := b_stc_shares b; b_stc_fee := b_stc_fee b;
+     b_note := b_note b; b_sell_note := b_sell_note b |}.
+
+(* Panic sites (file:line at the pinned commit 397bf4a) *)
+Module ESite.
+  Definition matched0 : N := 1901.      (* etrade_plan_pdf_tx_extract_impl.rs:470 matched_trades[0] *)
+  Definition remove_idx : N := 1902.    (* :496 position(..).unwrap() / :502 Vec::remove *)
+  Definition combos0 : N := 1903.       (* :402 trade_combos[0] *)
+End ESite.
+Definition rej_amend_errors : rej := RejOther 1901.     (* run_with_args: "Error: ..." lines, Err(()) *)
+Definition rej_stc_incomplete : rej := RejOther 1902.   (* sell_to_cover_data: "Some, but not all, ..." *)
+
+(* ------------------------------------------------------------------------
+   Decimal sums: Iterator::sum::<Decimal>() is a left fold from ZERO.        *)
+Section WithArith.
+Variable A : arith.
+
+Fixpoint sum_from {T} (f : T -> res Qc) (l : list T) (acc : Qc) : res Qc :=
+  match l with
+  | [] => Ok acc
+  | x :: r => v <- f x ;; s <- a_add A acc v ;; sum_from f r s
+  end.
+
+Definition sum_shares (l : list trade) : res Qc :=
+  sum_from (fun t => Ok (t_shares t)) l 0%Qc.
+Definition sum_value (l : list trade) : res Qc :=
+  sum_from (fun t => a_mul A (t_price t) (t_shares t)) l 0%Qc.
+
+(* ------------------------------------------------------------------------
+   itertools::combinations(n): sub-lists of length n in lexicographic order
+   of positions.                                                              *)
+Fixpoint combs {T} (n : nat) (l : list T) {struct l} : list (list T) :=
+  match n, l with
+  | O, _ => [[]]
+  | S _, [] => []
+  | S k, x :: r => map (cons x) (combs k r) ++ combs (S k) r
+  end.
+
+(* for n in (1..=len).rev() { for trades in combinations(n) {..} } *)
+Definition all_combos {T} (l : list T) : list (list T) :=
+  flat_map (fun n => combs n l) (rev (seq 1 (length l))).
+
+(* A candidate is a trade together with its position in the pool of trade
+   confirmations not yet consumed (the Rust code holds a reference into
+   leftover_trade_confs). *)
+Definition itrade : Type := (nat * trade)%type.
+Definition trades_of (c : list itrade) : list trade := map snd c.
+
+Definition same_security (b : benefit) (c : list itrade) : bool :=
+  forallb (fun it => N.eqb (t_sec (snd it)) (b_sec b)) c.
+
+(* Step 1 of find_sell_to_cover_trade_set *)
+Fixpoint matching_combos (b : benefit) (sh : Qc) (cs : list (list itrade)) : res (list (list itrade)) :=
+  match cs with
+  | [] => Ok []
+  | c :: r =>
+      if same_security b c then
+        n <- sum_shares (trades_of c) ;;
+        rest <- matching_combos b sh r ;;
+        Ok (if Qceqb n sh then c :: rest else rest)
+      else matching_combos b sh r
+  end.
+
+(* Decimal::MAX, the "no price to compare with" sentinel *)
+Definition dec_max : Qc := QcZ max_mant.
+
+(* TradesCombination: (abs_difference_from_benefit_price, trades) *)
+Definition score (b : benefit) (c : list itrade) : res (Qc * list itrade) :=
+  total_val <- sum_value (trades_of c) ;;
+  total_shares <- sum_shares (trades_of c) ;;
+  avg <- a_div A total_val total_shares ;;
+  match b_stc_price b with
+  | Some p => d <- a_sub A p avg ;; Ok (Qcabs d, c)
+  | None => Ok (dec_max, c)
+  end.
+
+Fixpoint map_res {T U} (f : T -> res U) (l : list T) : res (list U) :=
+  match l with
+  | [] => Ok []
+  | x :: r => y <- f x ;; ys <- map_res f r ;; Ok (y :: ys)
+  end.
+
+(* slice::sort_by is stable: insertion keeps an earlier element before the
+   later ones that compare equal. *)
+Fixpoint insert_by {T} (le : T -> T -> bool) (x : T) (l : list T) : list T :=
+  match l with
+  | [] => [x]
+  | y :: r => if le x y then x :: y :: r else y :: insert_by le x r
+  end.
+Definition sort_by {T} (le : T -> T -> bool) (l : list T) : list T :=
+  fold_right (insert_by le) [] l.
+
+Definition score_le (x y : Qc * list itrade) : bool := Qcleb (fst x) (fst y).
+
+Inductive find_err : Type := NoMatch | Ambiguous.
+Inductive found : Type := Found (m : list itrade) | NotFound (e : find_err).
+
+Definition find_sell_to_cover_trade_set (b : benefit) (sh : Qc) (cands : list itrade) : res found :=
+  ms <- matching_combos b sh (all_combos cands) ;;
+  match ms with
+  | [] => Ok (NotFound NoMatch)
+  | [m] => Ok (Found m)
+  | _ =>
+      scored <- map_res (score b) ms ;;
+      match sort_by score_le scored with
+      | [] => Panic (PanicMissing ESite.combos0)
+      | (d, m) :: _ => if Qceqb d dec_max then Ok (NotFound Ambiguous) else Ok (Found m)
+      end
+  end.
+
+(* ------------------------------------------------------------------------
+   amend_benefit_sales                                                        *)
+Definition tag_from {T} (i : nat) (l : list T) : list (nat * T) := combine (seq i (length l)) l.
+Definition tag {T} (l : list T) : list (nat * T) := tag_from 0 l.
+
+Definition in_window (b : benefit) (it : itrade) : bool :=
+  act_eqb (t_act (snd it)) ASell
+  && Z.leb (b_date b) (t_td (snd it))
+  && Z.leb (t_td (snd it)) (b_date b + 5).
+
+Definition candidates (b : benefit) (left : list trade) : list itrade :=
+  filter (in_window b) (tag left).
+
+(* Vec::remove(i) *)
+Fixpoint remove_at {T} (i : nat) (l : list T) : res (list T) :=
+  match i, l with
+  | _, [] => Panic (PanicMissing ESite.remove_idx)
+  | O, _ :: r => Ok r
+  | S k, x :: r => r' <- remove_at k r ;; Ok (x :: r')
+  end.
+Fixpoint remove_all {T} (idxs : list nat) (l : list T) : res (list T) :=
+  match idxs with
+  | [] => Ok l
+  | i :: r => l' <- remove_at i l ;; remove_all r l'
+  end.
+
+(* number of warnings pushed for one matched set *)
+Definition date_differs (t0 t : trade) : bool :=
+  negb (Z.eqb (t_td t0) (t_td t)) || negb (Z.eqb (t_sd t0) (t_sd t)).
+
+Inductive amend_err : Type := AmendErr (benefit_index : nat) (e : find_err).
+
+Record amended : Type := {
+  am_benefits : list benefit;        (* benefits with sell-to-cover dates filled in *)
+  am_left : list trade;              (* other_trades *)
+  am_warn : nat;                     (* number of warnings *)
+  am_errs : list amend_err;          (* errors, in benefit order *)
+  am_matched : list (list trade)     (* log: per benefit, the trades consumed by it *)
+}.
+
+Definition am_cons (b : benefit) (m : list trade) (w : nat) (e : list amend_err) (r : amended) : amended :=
+  {| am_benefits := b :: am_benefits r; am_left := am_left r; am_warn := (w + am_warn r)%nat;
+     am_errs := e ++ am_errs r; am_matched := m :: am_matched r |}.
+
+Definition nat_leb_pair (x y : nat) : bool := Nat.leb x y.
+
+Fixpoint amend_loop (i : nat) (bs : list benefit) (left : list trade) : res amended :=
+  match bs with
+  | [] => Ok {| am_benefits := []; am_left := left; am_warn := 0; am_errs := []; am_matched := [] |}
+  | b :: r =>
+      match b_stc_shares b with
+      | None => rr <- amend_loop (S i) r left ;; Ok (am_cons b [] 0 [] rr)
+      | Some sh =>
+          f <- find_sell_to_cover_trade_set b sh (candidates b left) ;;
+          match f with
+          | NotFound e =>
+              rr <- amend_loop (S i) r left ;; Ok (am_cons b [] 0 [AmendErr i e] rr)
+          | Found m =>
+              match m with
+              | [] => Panic (PanicMissing ESite.matched0)
+              | (_, t0) :: _ =>
+                  let w := length (filter (date_differs t0) (trades_of m)) in
+                  let b' := set_stc_dates b (t_td t0) (t_sd t0) in
+                  (* indexes.sort(); for i in indexes.iter().rev() { remove(i) } *)
+                  left' <- remove_all (rev (sort_by nat_leb_pair (map fst m))) left ;;
+                  rr <- amend_loop (S i) r left' ;;
+                  Ok (am_cons b' (trades_of m) w [] rr)
+              end
+          end
+      end
+  end.
+
+Definition amend_benefit_sales (bs : list benefit) (ts : list trade) : res amended :=
+  amend_loop 0 bs ts.
+
+End WithArith.
+
+(* ------------------------------------------------------------------------
+   txs_from_data                                                              *)
+Inductive memo : Type :=
+| MemoPlan (note : N)                                (* "<plan_note>" *)
+| MemoPlanSell (note : N) (sell_note : option N)     (* "<plan_note> <sell_note | sell-to-cover>" *)
+| MemoManual.                                        (* "(manual trade)" *)
+
+(* the CSV columns of an emitted row *)
+Record rowc : Type := {
+  c_sec : N; c_td : Z; c_sd : Z; c_act : act;
+  c_shares : Qc; c_price : Qc; c_comm : Qc; c_memo : memo
+}.
+Record row : Type := { r_core : rowc; r_ri : nat (* read_index: sort tie-break only *) }.
+
+(* BenefitEntry::sell_to_cover_data *)
+Record stc_data : Type := { s_td : Z; s_sd : Z; s_price : Qc; s_shares : Qc; s_fee : Qc }.
+Definition sell_to_cover_data (b : benefit) : res (option stc_data) :=
+  match b_stc_td b, b_stc_sd b, b_stc_price b, b_stc_shares b, b_stc_fee b with
+  | None, None, None, None, None => Ok None
+  | Some td, Some sd, Some p, Some sh, Some f =>
+      Ok (Some {| s_td := td; s_sd := sd; s_price := p; s_shares := sh; s_fee := f |})
+  | _, _, _, _, _ => Rej rej_stc_incomplete
+  end.
+
+Definition buy_core (b : benefit) : rowc :=
+  {| c_sec := b_sec b; c_td := b_date b; c_sd := b_settle b; c_act := ABuy;
+     c_shares := b_shares b; c_price := b_price b; c_comm := 0%Qc; c_memo := MemoPlan (b_note b) |}.
+Definition stc_core (b : benefit) (s : stc_data) : rowc :=
+  {| c_sec := b_sec b; c_td := s_td s; c_sd := s_sd s; c_act := ASell;
+     c_shares := s_shares s; c_price := s_price s; c_comm := s_fee s;
+     c_memo := MemoPlanSell (b_note b) (b_sell_note b) |}.
+Definition manual_core (t : trade) : rowc :=
+  {| c_sec := t_sec t; c_td := t_td t; c_sd := t_sd t; c_act := t_act t;
+     c_shares := t_shares t; c_price := t_price t; c_comm := t_comm t; c_memo := MemoManual |}.
+
+Fixpoint benefit_rows (i : nat) (bs : list benefit) : res (list row) :=
+  match bs with
+  | [] => Ok []
+  | b :: r =>
+      s <- sell_to_cover_data b ;;
+      rest <- benefit_rows (S i) r ;;
+      Ok ({| r_core := buy_core b; r_ri := (2 * i)%nat |}
+            :: match s with
+               | Some s => [{| r_core := stc_core b s; r_ri := (2 * i + 1)%nat |}]
+               | None => []
+               end ++ rest)
+  end.
+
+Fixpoint manual_rows (base : nat) (ts : list trade) : list row :=
+  match ts with
+  | [] => []
+  | t :: r => {| r_core := manual_core t; r_ri := base |} :: manual_rows (S base) r
+  end.
+
+(* Ord for CsvTx: settlement date, then read_index; Vec::sort is stable *)
+Definition row_le (x y : row) : bool :=
+  Z.ltb (c_sd (r_core x)) (c_sd (r_core y))
+  || (Z.eqb (c_sd (r_core x)) (c_sd (r_core y)) && Nat.leb (r_ri x) (r_ri y)).
+
+Definition txs_from_data (bs : list benefit) (left : list trade) : res (list row) :=
+  brs <- benefit_rows 0 bs ;;
+  Ok (sort_by row_le (brs ++ manual_rows (length brs) left)).
+
+(* run_with_args without --extract-only, from parsed records to emitted rows *)
+Definition extract (A : arith) (bs : list benefit) (ts : list trade) : res (list row) :=
+  am <- amend_benefit_sales A bs ts ;;
+  match am_errs am with
+  | _ :: _ => Rej rej_amend_errors
+  | [] => txs_from_data (am_benefits am) (am_left am)
+  end.
+
+(* ------------------------------------------------------------------------
+   Tx::try_from(CsvTx) for the rows this tool emits (action Buy/Sell, all of
+   security / dates / shares / amount/share / commission present, currency
+   USD whose rate load_tx_rates supplies, no commission currency, no
+   superficial-loss or split columns): what remains are the constrained
+   decimals of buy_or_sell_common_attrs_from_csv_tx.                           *)
+Definition acb_accepts (c : rowc) : bool :=
+  Qcltb 0%Qc (c_shares c)        (* PosDecimal::try_from(shares) *)
+  && Qcleb 0%Qc (c_price c)      (* GreaterEqualZeroDecimal::try_from(amount_per_share) *)
+  && Qcleb 0%Qc (c_comm c).      (* GreaterEqualZeroDecimal::try_from(commission) *)
